@@ -1471,3 +1471,91 @@ def reaching_defs(g, name, use_node):
     if use_node.id in g.reachable(g.entry.id, blocked=ids - {use_node.id}):
         out.append(None)
     return out
+
+
+# ----------------------------------------------------------------------------
+# read-slot == write-slot pairing of spin-resolved inputs and their derivative buffers (C04)
+# ----------------------------------------------------------------------------
+def _slot_text(e, loopvar):
+    """canonical text of an index expression in the loop variable (2*s == s*2 == s+s)"""
+    try:
+        from sa import exprnorm as en
+        nz = en.Normaliser({loopvar: "s"})
+        return en.show(nz.expr(e))
+    except Exception:
+        return pf.src(e)
+
+
+def slot_pairing(fn):
+    """Buffers created as np.zeros_like(<template>) and collected in a list/tuple B receive, inside a
+    `for s` loop, the derivative with respect to a slot of <template>:  B[j][I_w(s)] = ...  while the
+    input slot is read as <template>[I_r(s) : I_r(s) + 1] (or <template>[I_r(s)]).  For every template
+    the slots read and the slots written in the same loop must coincide.
+    -> list of dict(template, reads=[(slot, node)], writes=[(slot, node)], loop)"""
+    # buffer lists: name -> [template text per element]
+    lists = {}
+    order = sorted((n for n in pf.walk_no_nested(fn) if isinstance(n, (ast.Assign, ast.Expr))),
+                   key=lambda n: (n.lineno, n.col_offset))
+
+    def template(e):
+        if isinstance(e, ast.Call) and pf.call_name(e) in ("np.zeros_like", "numpy.zeros_like", "np.empty_like") and e.args:
+            return pf.src(e.args[0])
+        return None
+
+    for n in order:
+        if isinstance(n, ast.Assign) and len(n.targets) == 1 and isinstance(n.targets[0], ast.Name):
+            t, v = n.targets[0].id, n.value
+            if isinstance(v, (ast.List, ast.Tuple)) and v.elts and all(template(x) for x in v.elts):
+                lists[t] = [template(x) for x in v.elts]
+            elif isinstance(v, ast.Call) and pf.call_name(v) in ("tuple", "list") and v.args \
+                    and isinstance(v.args[0], ast.Name) and v.args[0].id in lists:
+                lists[t] = lists[v.args[0].id]
+        elif isinstance(n, ast.Expr) and isinstance(n.value, ast.Call) and isinstance(n.value.func, ast.Attribute) \
+                and n.value.func.attr == "append" and isinstance(n.value.func.value, ast.Name) \
+                and n.value.func.value.id in lists and n.value.args and template(n.value.args[0]):
+            lists[n.value.func.value.id] = lists[n.value.func.value.id] + [template(n.value.args[0])]
+    out = []
+    if not lists:
+        return out
+    for loop in pf.walk_no_nested(fn):
+        if not (isinstance(loop, ast.For) and isinstance(loop.target, ast.Name)):
+            continue
+        s = loop.target.id
+        per = {}
+        for n in ast.walk(loop):
+            # writes  B[j][I] = ... / B[j][I] op= ...
+            tgt = None
+            if isinstance(n, ast.Assign) and len(n.targets) == 1:
+                tgt = n.targets[0]
+            elif isinstance(n, ast.AugAssign):
+                tgt = n.target
+            if isinstance(tgt, ast.Subscript) and isinstance(tgt.value, ast.Subscript) \
+                    and isinstance(tgt.value.value, ast.Name) and tgt.value.value.id in lists \
+                    and isinstance(tgt.value.slice, ast.Constant) and isinstance(tgt.value.slice.value, int):
+                j = tgt.value.slice.value
+                tl = lists[tgt.value.value.id]
+                idx = tgt.slice.elts[0] if isinstance(tgt.slice, ast.Tuple) else tgt.slice
+                if isinstance(idx, ast.Slice):
+                    idx = idx.lower
+                if -len(tl) <= j < len(tl) and idx is not None and s in names_in(idx):
+                    per.setdefault(tl[j], {"reads": [], "writes": []})["writes"].append((_slot_text(idx, s), n))
+        templates = {t for tl in lists.values() for t in tl}
+        for n in ast.walk(loop):
+            if isinstance(n, ast.Subscript) and isinstance(n.ctx, ast.Load) and pf.src(n.value) in templates:
+                idx = n.slice.elts[0] if isinstance(n.slice, ast.Tuple) else n.slice
+                if isinstance(idx, ast.Slice):
+                    lo, hi = idx.lower, idx.upper
+                    if lo is None or hi is None or idx.step is not None or s not in names_in(lo):
+                        continue
+                    # a single slot: upper == lower + 1
+                    one = ast.BinOp(left=hi, op=ast.Sub(), right=lo)
+                    if _slot_text(one, s) != "1":
+                        continue
+                    idx = lo
+                elif s not in names_in(idx):
+                    continue
+                per.setdefault(pf.src(n.value), {"reads": [], "writes": []})["reads"].append((_slot_text(idx, s), n))
+        for t, d in sorted(per.items()):
+            if d["reads"] and d["writes"]:
+                out.append({"template": t, "reads": d["reads"], "writes": d["writes"], "loop": loop})
+    return out
